@@ -49,24 +49,28 @@ func HTTPClient.GetSnapshot
 func HTTPClient.MembershipVerify
   props C02 C12
   requires proof != nil && snapshot != nil
-  requires len(eventDigest) < 8192
-  requires proof.HyperProof != nil ==> len(proof.HyperProof.Value) <= len(eventDigest) || len(proof.HyperProof.Value) >= 8 * len(eventDigest)
-  modifies everything
+  modifies everything, verifyCalls, lastVerify, lastVerifyHistory, lastVerifyHyper
   ensures C02/accept-implies-exists-and-ordered: result_0 ==> proof.Exists && proof.ActualVersion <= proof.QueryVersion
+  ensures result_1 == nil
+  // ghost bookkeeping (defines the ghosts; not a claim about the code)
+  assumes verifyCalls == old(verifyCalls) + 1 && lastVerify == result_0
+  assumes lastVerifyHistory == old(snapshot.HistoryDigest) && lastVerifyHyper == old(snapshot.HyperDigest)
 
 func HTTPClient.MembershipAutoVerify
   props C12
   requires c.hasherF != nil && pure_fn(c.hasherF) && nonnil_fn(c.hasherF) && !isnil(c.log)
-  requires len(eventDigest) < 8192 && int(hashlen_fn(c.hasherF)) == 8 * len(eventDigest)
   modifies everything
 
 func HTTPClient.IncrementalVerify
   props C03 C12
   requires proof != nil && startSnapshot != nil && endSnapshot != nil && !isnil(proof.Hasher)
-  modifies everything
+  modifies everything, verifyCalls, lastVerify, lastVerifyHistory, lastVerifyHyper
+  ensures result_1 == nil
+  assumes verifyCalls == old(verifyCalls) + 1 && lastVerify == result_0
+  assumes lastVerifyHistory == old(startSnapshot.HistoryDigest) && lastVerifyHyper == old(endSnapshot.HistoryDigest)
 
 func HTTPClient.IncrementalAutoVerify
   props C12
   requires c.hasherF != nil && pure_fn(c.hasherF) && nonnil_fn(c.hasherF) && !isnil(c.log)
-  modifies everything
+  modifies everything, verifyCalls, lastVerify, lastVerifyHistory, lastVerifyHyper
 @*/
